@@ -426,9 +426,12 @@ class World:
                                valid=True, ytrue=ytrue))
         self.ev("target_call", k, x, yobs, sd, dur, phase)
         self.sem("call", k, x, yobs, sd)
+        rt = self.scn.get("ret_type", "float")
+        conv = {"float": float, "np64": np.float64, "arr1": lambda v: np.array([v], dtype=float),
+                "arr0": lambda v: np.array(v, dtype=float), "f32exact": float}[rt]
         if self.specified:
-            return (yobs, sd if sd is not None else 1.0)
-        return yobs
+            return (conv(yobs), conv(sd if sd is not None else 1.0))
+        return conv(yobs)
 
     def _do_target_fault(self, fk, x):
         if fk.startswith("raise:"):
